@@ -34,7 +34,9 @@ for d in sorted(glob.glob(os.path.join(ROOT, "seeded", "*"))):
     m = json.load(open(os.path.join(d, "meta.json")))
     sid = os.path.basename(d)
     mat = m.get("matrix", {})
-    own = mat.get(m["property"]) or ("VIOLATION" if m.get("caught_by") else "silent (MISSED)")
+    ran = (m.get("what_i_ran") or {}).get("result", "")
+    own = mat.get(m["property"]) or ("VIOLATION" if ("VIOLATION" in ran or "exit 1" in ran) else
+                                     "silent (reported by the checks on the right)" if m.get("caught_by") else "silent (MISSED)")
     if m.get("note") and "missed" in m["note"].lower():
         own += " (missed by the first version; caught after strengthening)"
     others = ", ".join("%s: %s" % (k, v) for k, v in mat.items() if k != m["property"]) or "-"
